@@ -112,7 +112,7 @@ def scratch_dir(prefix: str = "vfw") -> Path:
 def run_tlc(module: str, cfg: str, *, workers: int | str = "auto", timeout: int = 1800,
             extra: Optional[List[str]] = None, env: Optional[Dict[str, str]] = None,
             coverage: bool = False, deadlock: bool = False, spec_dir: Path = SPECS,
-            heap: str = "8g", dfs: bool = False) -> TLCResult:
+            heap: str = "8g", dfs: bool = False, library: Optional[Path] = None) -> TLCResult:
     """Run TLC on specs/<module>.tla with specs/<cfg>. Returns a parsed TLCResult.
 
     Raises TLCError on anything that is not 'finished, no error' or 'finished, property violated'.
@@ -121,6 +121,8 @@ def run_tlc(module: str, cfg: str, *, workers: int | str = "auto", timeout: int 
     jopts = [f"-Xmx{heap}", "-Xss64m", "-XX:+UseParallelGC"]
     if dfs:
         jopts.append("-Dtlc2.tool.queue.IStateQueue=StateDeque")
+    if library is not None:
+        jopts.append(f"-DTLA-Library={library}")
     cmd = ["java", *jopts, "-cp", f"{JAR}:{DEPS}", "tlc2.TLC",
            "-workers", str(workers), "-metadir", str(meta), "-noGenerateSpecTE", "-nowarning",
            "-config", str(cfg)]
@@ -164,7 +166,7 @@ def run_tlc(module: str, cfg: str, *, workers: int | str = "auto", timeout: int 
     if md:
         res.depth = int(md.group(1))
     if "Model checking completed. No error has been found." in out or \
-       ("Finished in" in out and "Error:" not in out and ms):
+       ("Finished in" in out and "Error:" not in out):
         res.ok = True
         return res
     mv = re.search(r"Error: Invariant (\S+) is violated", out)
